@@ -743,6 +743,26 @@ impl Ctx {
                 };
                 self.last.verdict = v;
             }
+            "PtrEq" => {
+                let v = match (&self.slots[s], &self.slots[d]) {
+                    (Some(a), Some(b)) => {
+                        let (ap, bp): (*const H, *const H) = (a, b);
+                        self.call(|| unsafe {
+                            match (&*ap, &*bp) {
+                                (H::ArcA(x), H::ArcA(y)) => Arc::ptr_eq(x, y),
+                                (H::ArcB(x), H::ArcB(y)) => Arc::ptr_eq(x, y),
+                                (H::Dyn(x), H::Dyn(y)) => Arc::ptr_eq(x, y),
+                                (H::Uni(x), H::Uni(y)) => ArcUnion::ptr_eq(x, y),
+                                (H::BorA(x), H::BorA(y)) => ArcBorrow::ptr_eq(x, y),
+                                (H::BorB(x), H::BorB(y)) => ArcBorrow::ptr_eq(x, y),
+                                _ => crate::payload::harness_bug("PtrEq on wrong kinds"),
+                            }
+                        })
+                    }
+                    _ => None,
+                };
+                self.last.verdict = v;
+            }
             "TryUnique" => {
                 if let Some(h) = self.take(s) {
                     let before = observe(&h).heap_calc;
